@@ -52,6 +52,62 @@ type Case struct {
 	// bytes in one segment.
 	DownCoalesce bool `json:"down_coalesce,omitempty"`
 	Unreachable  bool `json:"unreachable,omitempty"`
+	// Twin: a second tunnel (to another target) carries traffic both ways
+	// through the same proxy at the same time; nothing may cross between tunnels.
+	Twin     bool   `json:"twin,omitempty"`
+	TwinSize int    `json:"twin_size,omitempty"`
+	TwinSeed uint64 `json:"twin_seed,omitempty"`
+}
+
+// runTwin drives the second tunnel and reports what it saw.
+func runTwin(proxyAddr string, tl net.Listener, size int, seed uint64, T time.Duration) (v kit.Verdict) {
+	up, down := kit.Bytes(seed, size), kit.Bytes(seed+1, size)
+	conn, err := net.DialTimeout("tcp", proxyAddr, 5*time.Second)
+	if err != nil {
+		return kit.Failf("C04/harness/dial", "%v", err)
+	}
+	defer conn.Close()
+	conn.SetDeadline(time.Now().Add(30*time.Second + 4*T))
+	fmt.Fprintf(conn, "CONNECT twin.test:443 HTTP/1.1\r\nHost: twin.test:443\r\n\r\n")
+	br := bufio.NewReader(conn)
+	res, err := http.ReadResponse(br, &http.Request{Method: "CONNECT"})
+	if err != nil || res.StatusCode != 200 {
+		return kit.Failf("C04/twin/direct/timeout-no-200", "second tunnel: %v %v", res, err)
+	}
+	type acc struct {
+		c   net.Conn
+		err error
+	}
+	ch := make(chan acc, 1)
+	go func() {
+		if t, ok := tl.(*net.TCPListener); ok {
+			t.SetDeadline(time.Now().Add(T))
+		}
+		c, err := tl.Accept()
+		ch <- acc{c, err}
+	}()
+	a := <-ch
+	if a.err != nil {
+		return kit.Failf("C04/twin/direct/timeout-target-not-contacted", "second tunnel: %v", a.err)
+	}
+	tc := a.c
+	defer tc.Close()
+	tc.SetDeadline(time.Now().Add(30*time.Second + 4*T))
+	var wg sync.WaitGroup
+	var gotUp, gotDown []byte
+	wg.Add(4)
+	go func() { defer wg.Done(); conn.Write(up); halfClose(conn) }()
+	go func() { defer wg.Done(); tc.Write(down); halfClose(tc) }()
+	go func() { defer wg.Done(); gotUp, _ = io.ReadAll(tc) }()
+	go func() { defer wg.Done(); gotDown, _ = io.ReadAll(br) }()
+	wg.Wait()
+	if !bytes.Equal(gotUp, up) {
+		v.Addf("C04/twin/direct/client-to-target-bytes-differ", "second concurrent tunnel: %s", kit.Diff(up, gotUp))
+	}
+	if !bytes.Equal(gotDown, down) {
+		v.Addf("C04/twin/direct/target-to-client-bytes-differ", "second concurrent tunnel: %s", kit.Diff(down, gotDown))
+	}
+	return v
 }
 
 func (s Stream) bytes() []byte { return kit.Bytes(s.Seed, s.Size) }
@@ -249,8 +305,17 @@ func runOnce(c Case, T time.Duration) (v kit.Verdict) {
 	defer dl.Close()
 	go downstream(dl, tl.Addr().String(), targetEarly)
 
+	var twinL net.Listener
+	if c.Twin {
+		if twinL, err = netkit.Listen(); err != nil {
+			return kit.Failf("C04/harness/listen", "%v", err)
+		}
+		defer twinL.Close()
+	}
 	dialer := &netkit.Dialer{Route: func(addr string) string {
 		switch {
+		case strings.HasPrefix(addr, "twin.test") && twinL != nil:
+			return twinL.Addr().String()
 		case strings.HasPrefix(addr, "downstream.test"):
 			return dl.Addr().String()
 		case strings.HasPrefix(addr, "target.test"):
@@ -275,6 +340,25 @@ func runOnce(c Case, T time.Duration) (v kit.Verdict) {
 		}
 	}()
 
+	twinDone := make(chan kit.Verdict, 1)
+	twinCollected := !c.Twin
+	collectTwin := func() {
+		if twinCollected {
+			return
+		}
+		twinCollected = true
+		select {
+		case tv := <-twinDone:
+			v = append(v, tv...)
+		case <-time.After(40*time.Second + 8*T):
+			v.Addf("C04/twin/direct/timeout-second-tunnel-stuck", "the second concurrent tunnel did not finish")
+		}
+	}
+	if c.Twin {
+		go func() { twinDone <- runTwin(pr.Addr, twinL, c.TwinSize, c.TwinSeed, T) }()
+		// on every way out the second tunnel is finished before the proxy is stopped
+		defer collectTwin()
+	}
 	conn, err := net.DialTimeout("tcp", pr.Addr, 5*time.Second)
 	if err != nil {
 		return kit.Failf("C04/harness/dial", "%v", err)
@@ -465,6 +549,7 @@ func runOnce(c Case, T time.Duration) (v kit.Verdict) {
 		v.Addf("C04/transfer/"+sh+"/target-to-client-bytes-differ-at-end", "%s", kit.Diff(t2c, got))
 	}
 	// release: the handler must finish, so Close returns
+	collectTwin()
 	stopped = true
 	if !pr.Stop(T) {
 		v.Addf("C04/release/"+strings.TrimSuffix(c.Closer, "-early")+"/proxy-not-released-timeout", "both directions have ended (%s) but Proxy.Close() did not return within %v: the tunnel handler is still running", c.Closer, T)
@@ -524,6 +609,11 @@ func genCase(t *rapid.T) Case {
 	if c.Route == "direct" && rapid.IntRange(0, 14).Draw(t, "unreachable") == 0 {
 		c.Unreachable = true
 	}
+	if c.Route == "direct" && !c.Unreachable && rapid.IntRange(0, 3).Draw(t, "twin") == 0 {
+		c.Twin = true
+		c.TwinSize = rapid.SampledFrom([]int{1, 4096, 32768, 32769, 100000, 300000}).Draw(t, "twin_size")
+		c.TwinSeed = rapid.Uint64Range(1, 1<<20).Draw(t, "twin_seed")
+	}
 	return c
 }
 
@@ -548,6 +638,9 @@ func classes(c Case) []string {
 	if c.Unreachable {
 		out = append(out, "unreachable")
 	}
+	if c.Twin {
+		out = append(out, "concurrent-second-tunnel")
+	}
 	return out
 }
 
@@ -560,7 +653,7 @@ var propTunnel = &kit.Prop[Case]{
 
 func TestTunnel(t *testing.T) {
 	kit.Assume("TCP keeps order: interleavings are write sizes and pauses; kernel buffering is covered by the multi-hundred-KiB cases")
-	propTunnel.Check(t, kit.N(120, 300))
+	propTunnel.Check(t, kit.N(300, 400))
 }
 
 func TestReplay(t *testing.T) { kit.Replay(t, propTunnel) }
